@@ -7,6 +7,8 @@
 import Vise.State
 import Vise.Gen.Fn.State_Down
 import Vise.Gen.Fn.State_Up
+import Vise.Gen.Fn.State_Where
+import Vise.Gen.Fn.State_Depth
 
 namespace Vise.Tie
 
@@ -77,7 +79,30 @@ theorem up_tie (st : St) :
       | none => simp at hq
       | some top => simp
 
+/-- `State.Where`: the current node and page index ("" and 0 before the first descent); its index expression is never out of range. -/
+theorem where_tie (st : St) :
+    GenFn.state_Where st.execPath st.sizeIdx = some st.where := by
+  unfold GenFn.state_Where St.where
+  cases hp : st.execPath with
+  | nil => simp
+  | cons a l =>
+    have h0 : ¬ (((a :: l).length : Int) = 0) := by simp; omega
+    have hi : (0 : Int) ≤ ((a :: l).length : Int) - 1 := by simp
+    have ei : (((a :: l).length : Int) - 1).toNat = (a :: l).length - 1 := by simp
+    simp only [h0, hi, ei, decide_false, Bool.false_eq_true, if_false, if_true]
+    rw [getLast_index (a :: l) (by simp)]
+    cases hq : (a :: l).getLast? with
+    | none => simp at hq
+    | some top => simp
+
+/-- `State.Depth` (an `int`: -1 before the first descent). -/
+theorem depth_tie (st : St) : GenFn.state_Depth st.execPath = st.depth := by
+  unfold GenFn.state_Depth St.depth
+  rfl
+
 end Vise.Tie
 
 #print axioms Vise.Tie.down_tie
 #print axioms Vise.Tie.up_tie
+#print axioms Vise.Tie.where_tie
+#print axioms Vise.Tie.depth_tie
